@@ -8,8 +8,27 @@ fn v(sig: String, detail: String) -> Violation {
 
 pub fn check(a: &Analysis, obs: &mut Obs) -> Vec<Violation> {
     let mut out = Vec::new();
-    if !a.finished_ok() || a.ledger.any_huge {
+    if !a.finished_ok() {
         return out;
+    }
+    // Beyond 2^53 ticks the exact-rational model gives up ("Huge"); there the timestamp of a
+    // sample is the correctly rounded product seconds x 90000 (an integer-valued double), which
+    // is what "timestamp order" can only mean on that grid.
+    let bounds = |t: &crate::model::basic::Ticks, secs: f64| -> Option<(u64, u64)> {
+        match (t.lo(), t.hi()) {
+            (Some(l), Some(h)) => Some((l, h)),
+            _ => {
+                let x = (secs * 90_000.0).round();
+                if x.is_finite() && x >= 0.0 && x < 18_446_744_073_709_551_615.0 {
+                    Some((x as u64, x as u64))
+                } else {
+                    None
+                }
+            }
+        }
+    };
+    if a.ledger.any_huge {
+        obs.count("histories_beyond_2^53_ticks", 1);
     }
     let (Some(vt), Some(at)) = (a.video_track(), a.audio_track()) else {
         return out;
@@ -40,12 +59,14 @@ pub fn check(a: &Analysis, obs: &mut Obs) -> Vec<Violation> {
     let mut all: Vec<(u64, u64, u64, u8, usize)> = Vec::new();
     for (i, (s, f)) in vt.samples.iter().zip(a.ledger.video.iter()).enumerate() {
         if s.size > 0 {
-            all.push((s.offset, f.pts.lo().unwrap(), f.pts.hi().unwrap(), 0, i));
+            let Some((lo, hi)) = bounds(&f.pts, f.pts_s) else { return out };
+            all.push((s.offset, lo, hi, 0, i));
         }
     }
     for (i, (s, f)) in at.samples.iter().zip(a.ledger.audio.iter()).enumerate() {
         if s.size > 0 {
-            all.push((s.offset, f.pts.lo().unwrap(), f.pts.hi().unwrap(), 1, i));
+            let Some((lo, hi)) = bounds(&f.pts, f.pts_s) else { return out };
+            all.push((s.offset, lo, hi, 1, i));
         }
     }
     all.sort();
